@@ -75,12 +75,13 @@ FVals == {Absent, Val(R_foobar), Val(T_Foo)}
 QProduct(NS, LS, DS, MS, FS) == {[ok |-> TRUE, n |-> a, last |-> b, digest |-> c, mount |-> d, from |-> e] :
                                    a \in NS, b \in LS, c \in DS, d \in MS, e \in FS}
 QAllSet == QProduct(NVals, {Absent, Val(T_foo)}, DVals, DVals, FVals) \cup {QBroken}
-RECURSIVE SeqOf(_)
-SeqOf(S) == IF S = {} THEN <<>> ELSE LET x == CHOOSE y \in S : TRUE IN <<x>> \o SeqOf(S \ {x})
 QMid == QProduct({Absent, Val(<<50>>)}, {Absent}, {Absent, Val(D1)}, DVals, {Absent, Val(R_foobar)})
-Queries == IF QLevel = 1 THEN Q1
-           ELSE IF QLevel = 2 THEN Q1 \o SeqOf(QMid \ {Q1[i] : i \in 1..Len(Q1)})
-           ELSE SeqOf(QAllSet)
+Q1Set == {Q1[i] : i \in 1..Len(Q1)}
+Queries == IF QLevel = 1 THEN Q1Set ELSE IF QLevel = 2 THEN Q1Set \cup QMid ELSE QAllSet
+\* a number per query, for the pseudo-random choice of exported cases
+QHash(q) == Len(q.n.v) * 3 + Len(q.last.v) * 5 + Len(q.digest.v) * 7 + Len(q.mount.v) * 11 + Len(q.from.v) * 13
+            + (IF q.n.has THEN 17 ELSE 0) + (IF q.last.has THEN 19 ELSE 0) + (IF q.digest.has THEN 23 ELSE 0)
+            + (IF q.mount.has THEN 29 ELSE 0) + (IF q.from.has THEN 31 ELSE 0) + (IF q.ok THEN 0 ELSE 37)
 
 \* ------------------------------------------------------- scripts, options
 MT_test == <<97, 112, 112, 108, 105, 99, 97, 116, 105, 111, 110, 47, 120, 45, 116, 101, 115, 116>>   \* "application/x-test"
@@ -297,14 +298,13 @@ RouteCheck ==
       sh == SegHash
       b == BodyFacts(Body1)
   IN /\ (Len(si) >= 1 /\ Len(si) <= LawSegs) => RepoSegmentwise(Toks)
-     /\ \A mi \in 1..Len(Methods), qi \in 1..Len(Queries) :
+     /\ \A mi \in 1..Len(Methods), q \in Queries :
           LET m == Methods[mi]
-              q == Queries[qi]
               r == RespondSegs(p, [m |-> m, path |-> <<>>, q |-> q, h |-> H0, body |-> b], Sc0, O0)
-              hv == (sh * 31 + mi) * 31 + qi + Seed
+              hv == (sh * 31 + mi) * 31 + QHash(q) + Seed
           IN /\ Props(r, Sc0, O0)
              /\ (\/ pre = "v2" /\ Len(si) <= AllSegs
-                 \/ pre = "v2" /\ Len(si) <= GetSegs /\ mi = 1 /\ qi = 1          \* GET without a query
+                 \/ pre = "v2" /\ Len(si) <= GetSegs /\ mi = 1 /\ q = Q0          \* GET without a query
                  \/ (IF r.mode = "exact" THEN hv % KOk = 0 ELSE hv % KErr = 0))
                   => Case(m, p, q, H0, Body1, Sc0, O0, r)
 HandleCheck ==
